@@ -431,6 +431,13 @@ func (m *Manager) FlushMemTables() error {
 	m.flushMu.Lock()
 	defer m.flushMu.Unlock()
 
+	// Close waits for a running flush and takes the flush lock; a flush that
+	// was only scheduled before the close must not write into a directory that
+	// may already have been reopened
+	if m.closed.Load() {
+		return ErrStorageClosed
+	}
+
 	// Track operation
 	m.stats.TrackOperation(stats.OpFlush)
 
@@ -644,6 +651,11 @@ func (m *Manager) Close() error {
 	if m.closed.Swap(true) {
 		return nil // Already closed
 	}
+
+	// Wait for a flush that is still running in the background: it must not
+	// keep writing table files after Close has returned
+	m.flushMu.Lock()
+	defer m.flushMu.Unlock()
 
 	// Close the WAL using atomic access
 	currentWAL := m.getWAL()
